@@ -89,6 +89,12 @@ claim("C12",
       "sum and explicit-histogram measure index their stream map only with that answer's identity.",
       _TB + "Not decided: the cardinality bound as a lock invariant, filters, view matching (see evidence).",
       "DESIGN.md 4 C12")
+claim("C15",
+      "Proof for every processor list: UnregisterSpanProcessor changes nothing for a processor that is not registered and removes exactly one entry otherwise (copy-on-write), RegisterSpanProcessor appends a fresh state, "
+      "TracerProvider.Shutdown is a no-op for every call that loses the compare-and-swap, empties the list on normal completion and stays shut down; simpleSpanProcessor calls its exporter only under its lock, only for sampled spans and never when it is nil - "
+      "including inside the goroutine Shutdown spawns (spawned closures are followed for panic obligations). Known finding (site canary): Shutdown with an already cancelled context.",
+      _TB + "sync.Once/atomic semantics assumed; frames of the list-publishing functions are marked unchecked. Not decided: metric/log providers, liveness.",
+      "DESIGN.md 4 C15")
 _todo = "check not built yet in this session (engine exists; contracts for this property's functions still to be written)"
-for _p in ["C01","C06","C11","C15","C16"]:
+for _p in ["C01","C06","C11","C16"]:
     na(_p, _todo)
